@@ -70,6 +70,13 @@ where
   {
     *self.fn_on_unsubscribe.write().unwrap() =
       Some(FunctionWrapper::new(move |_| f()));
+    if !self.is_subscribed() {
+      // the observer has already ended: nobody would ever run (or release) the action
+      let f = self.fn_on_unsubscribe.write().unwrap().take();
+      if let Some(f) = f {
+        f.call(());
+      }
+    }
   }
 }
 
